@@ -89,6 +89,19 @@ def result_gates(F, m, call_bb, target_bb):
             continue
         for e in fl.term_operand(b, t["d"]):
             e = deep_strip(e)
+            if e[0] == "call" and (e[3] or "").endswith(("Result::<T, E>::is_ok", "Result::<T, E>::is_err")):
+                # `if call().is_ok() { target }`: the bool answers for the call's result
+                if not any(mentions(a, lambda x: x[0] == "call" and x[1] == call_bb) for a in fl.term_arg(e[1], 0)):
+                    continue
+                found = True
+                want_true = e[3].endswith("is_ok")
+                for tg, lab in m.succ_labeled(b):
+                    is_true_edge = (lab.startswith("sw:") and lab != "sw:0") or (lab == "else" and [v for v, _ in t["vals"]] == [0])
+                    if is_true_edge == want_true:
+                        continue
+                    if target_bb == tg or target_bb in cfg.reachable(m, tg, unwind=False):
+                        return False, "target bb%d reachable from the failure edge bb%d->bb%d" % (target_bb, b, tg)
+                continue
             if e[0] != "discr":
                 continue
             x = deep_strip(e[1])
